@@ -1264,6 +1264,14 @@ def gen_dispatch():
          'if let tast::Ty::TDyn { trait_name: recv_trait, } = receiver_tast.get_ty() && recv_trait == type_ident.0 {'),
         (comp, "calls compiled for effect emit a statement",
          '| anf::CExpr::EToDyn { .. } | anf::CExpr::EProj { .. } => Vec::new(), anf::CExpr::ECall { .. } | anf::CExpr::EDynCall { .. } => { vec![goast::Stmt::Expr(compile_cexpr(goenv, expr))] }'),
+        (re.sub(r"\s+", " ", _src("crates/compiler/src/env.rs")), "lookup_inherent_method: exact impl first, generic impl as fallback",
+         'if let Some(scheme) = self .inherent_impls .get(&InherentImplKey::Exact(receiver_ty.clone())) .and_then(|impl_def| impl_def.methods.get(&method.0)) { return Some(scheme.ty.clone()); }'),
+        (re.sub(r"\s+", " ", _src("crates/compiler/src/env.rs")), "instantiation_impl_defines",
+         'matches!( key, InherentImplKey::Exact(tast::Ty::TApp { ty, .. }) if ty.constr_name().as_deref() == Some(constr) ) && impl_def.methods.contains_key(&method.0)'),
+        (chk, "path form of an inherent call looks the method up under the receiver argument's type",
+         'let arg_ty = arg_tast.get_ty(); if super::util::try_constr_name(&arg_ty).as_deref() == Some(resolved_type_name.as_str()) && let Some(method_ty) = type_env.lookup_inherent_method(&arg_ty, &member_ident) { receiver_ty = arg_ty; method_lookup = Some(method_ty); }'),
+        (chk, "dot form of an inherent call looks the method up under the receiver's type",
+         'let receiver_ty = receiver_tast.get_ty(); if let Some(method_ty) = lookup_inherent_method_for_ty( genv, &receiver_ty, &tast::TastIdent(field.to_ident_name()), ) {'),
         (nm, "parse_inherent_method_fn_name", 'let mut parts = name.split(\'#\'); if parts.next()? != "inherent" { return None; } let base = parts.next()?; let _ty = parts.next()?; let method = parts.next()?; if parts.next().is_some() { return None; } Some((base, method))'),
     ]
     for text, what, frag in want:
